@@ -680,6 +680,43 @@ func decHostileStream(c *ctx, valid [][]byte, nMut, nRand int) {
 	}
 }
 
+// well-formed tagged numbers from RFC 8949 (bignums 3.4.3, decimal fraction / bigfloat 3.4.4): the library
+// documents decoding them into a float64
+var rfcTagged = []struct {
+	hex  string
+	want float64
+}{
+	{"c48221196ab3", 273.15},                         // 4([-2, 27315])
+	{"c5822003", 1.5},                                // 5([-1, 3])
+	{"c482010a", 100},                                // 4([1, 10])
+	{"c58201390003", -8},                             // 5([1, -4])
+	{"c249010000000000000000", 18446744073709551616}, // 2(h'010000000000000000')
+	{"c349010000000000000000", -18446744073709551617},
+	{"c24101", 1},
+	{"c340", -1},
+}
+
+func rfcStream(c *ctx) {
+	for _, e := range rfcTagged {
+		b := unhex(e.hex)
+		o := decCase(c, "dec.rfc", DOpts{}, b, nil, false, "RFC 8949 tagged number")
+		cj := map[string]interface{}{"bytes": e.hex, "cls": o.cls, "want": fmt.Sprintf("f64:%016x", math.Float64bits(e.want))}
+		if o.it != nil {
+			cj["decoded"] = o.it.Canon()
+		}
+		if o.cls != clsOK || o.it == nil || o.it.K != KF64 || o.it.Bits != math.Float64bits(e.want) || o.nread != len(b) {
+			c.sum.FailC("dec.rfc", fmt.Sprintf("in:tagged-number:tag%d", b[0]&0x1f), "a well-formed bignum / decimal fraction / bigfloat did not decode to its value", cj)
+		}
+		c.sum.Count("dec.rfc", "rfc/"+e.hex)
+	}
+}
+
+func unhex(s string) []byte {
+	b := make([]byte, len(s)/2)
+	fmt.Sscanf(s, "%x", &b)
+	return b
+}
+
 func firstByte(b []byte) int {
 	if len(b) == 0 {
 		return -1
@@ -981,6 +1018,7 @@ func main() {
 	valid := decRefStream(c, *nRef, stats)
 	decHostileStream(c, valid, *nMut, *nRand)
 	firstByteStream(c, *nFirst)
+	rfcStream(c)
 	skipStream(c, valid, *nSkip)
 	leafStream(c, *nLeaf)
 	c.cv.Close()
